@@ -107,6 +107,15 @@ impl LineParser {
         }
 
         self.in_command = false;
+
+        // exit codes and output expectations belong to the shell expression above them
+        if self.command.is_empty() {
+            bail!(
+                "line {}: testcase output expectation or exit code given, but no shell expression specified. Did you forget to prefix the command with '$'?",
+                index + 1
+            )
+        }
+
         if let Some(exit_code) = extract_exit_code(line) {
             if self.exit_code.is_some() {
                 bail!("line {}: exit code provided multiple times", index + 1)
